@@ -2,11 +2,35 @@ package util
 
 // VSeqState builds an IDSequence in an arbitrary internal state (harness hook:
 // exported so that the harnesses of other packages can construct pre-states).
+// The overflow flag is written through a type switch so that the hook still
+// compiles when the flag's representation changes (bool, or an integer used
+// with sync/atomic): a harness that does not load decides nothing.
 func VSeqState(min, max, next uint16, overflow bool) *IDSequence {
-	return &IDSequence{next: next, min: min, max: max, overflow: overflow}
+	s := &IDSequence{next: next, min: min, max: max}
+	switch p := interface{}(&s.overflow).(type) {
+	case *bool:
+		*p = overflow
+	case *uint32:
+		if overflow {
+			*p = 1
+		}
+	case *int32:
+		if overflow {
+			*p = 1
+		}
+	}
+	return s
 }
 
 // VSeqPeek exposes the internal state (for oracles).
 func VSeqPeek(s *IDSequence) (next uint16, overflow bool) {
-	return s.next, s.overflow
+	switch p := interface{}(&s.overflow).(type) {
+	case *bool:
+		overflow = *p
+	case *uint32:
+		overflow = *p != 0
+	case *int32:
+		overflow = *p != 0
+	}
+	return s.next, overflow
 }
